@@ -27,7 +27,12 @@ ExecFinger(r) ==
             \cup (IF r.err = "" /\ r.out # SMapN(p, RootSrc, RootTgt, r["in"]) THEN {<<"C06", "custom-function-result-not-at-every-position", "", r.id>>} ELSE {})
        ELSE (IF r.err = "" THEN {<<"C07", "error-dropped", "", r.id>>}
              ELSE IF r.err \notin reached THEN {<<"C07", "wrong-error", "", r.id>>} ELSE {})
-Finger(r) == IF r.exec THEN ExecFinger(r) ELSE GenFinger(r)
+Rng(q) == {q[i] : i \in DOMAIN q}
+Finger18(r) ==
+  IF r.gen # "ok" THEN {}
+  ELSE (IF Rng(r.imports) # {"user"} THEN {<<"C18", "imports-differ-from-owners-of-used-types", "calls", r.id>>} ELSE {})
+       \cup (IF \E i \in DOMAIN r.decls : r.decls[i] \notin {"struct", "method"} THEN {<<"C18", "extra-top-level-declaration", "calls", r.id>>} ELSE {})
+Finger(r) == IF r.exec THEN ExecFinger(r) ELSE GenFinger(r) \cup Finger18(r)
 VARIABLES l, bad
 Init == l = 1 /\ bad = {}
 Next == /\ l <= Len(Obs)
